@@ -355,6 +355,87 @@ theorem gsum_split (cl L : List Nat) (a : Nat) :
 theorem mem_take_or_drop (L : List Nat) (a p : Nat) (h : p ∈ L) : p ∈ L.take a ∨ p ∈ L.drop a := by
   rw [← List.mem_append, List.take_append_drop]; exact h
 
+/-- the reader half, for an abstract storage order `L` -/
+theorem reader_part (cl L : List Nat) (hl : cl.length = 18) (h5 : ∀ x ∈ cl, x ≤ 5)
+    (hLlen : L.length = 18) (hLlt : ∀ o ∈ L, o < 18) (hLall : ∀ p, p < 18 → p ∈ L)
+    (skip cts : Nat) (hskip3 : skip ≤ 3) (hcts18 : cts ≤ 18)
+    (hzfront : ∀ o ∈ L.take skip, cl.getD o 0 = 0) (hzback : ∀ o ∈ L.drop cts, cl.getD o 0 = 0)
+    (hmode : (gsum cl L = 32 ∧ 0 < cts ∧ cl.getD (L.getD (cts - 1) 0) 0 ≠ 0) ∨
+      (cts = 18 ∧ gsum cl L < 32)) (rest : List Bool) :
+    readClLens (L.drop skip) 32 (List.replicate 18 0)
+        (bitsFor cl ((L.drop skip).take (cts - skip)) ++ rest) = some (cl, rest) := by
+  have hsplit1 := gsum_split cl L skip
+  rw [gsum_zero cl _ hzfront, Nat.zero_add] at hsplit1
+  have hlt : ∀ o ∈ L.drop skip, o < cl.length := by
+    intro o ho; rw [hl]; exact hLlt o (List.mem_of_mem_drop ho)
+  have hdroplen : (L.drop skip).length = 18 - skip := by rw [List.length_drop, hLlen]
+  have hmodes : (1 ≤ cts - skip ∧ gsum cl ((L.drop skip).take (cts - skip)) = 32 ∧
+        cl.getD ((L.drop skip).getD (cts - skip - 1) 0) 0 ≠ 0) ∨
+      (cts - skip = (L.drop skip).length ∧ gsum cl (L.drop skip) < 32) := by
+    rcases hmode with ⟨hk, hcts0, hnz⟩ | ⟨hc18, hk⟩
+    · left
+      have hge : skip ≤ cts - 1 := by
+        by_cases h : cts - 1 < skip
+        · exfalso
+          apply hnz
+          apply hzfront
+          rw [List.getD_eq_getElem?_getD, List.getElem?_eq_getElem (by rw [hLlen]; omega)]
+          simp only [Option.getD_some]
+          rw [List.mem_take_iff_getElem]
+          exact ⟨cts - 1, by rw [hLlen]; omega, rfl⟩
+        · omega
+      refine ⟨by omega, ?_, ?_⟩
+      · have hsplit2 := gsum_split cl (L.drop skip) (cts - skip)
+        have hdd : (L.drop skip).drop (cts - skip) = L.drop cts := by
+          rw [List.drop_drop]; congr 1; omega
+        rw [hdd, gsum_zero cl _ hzback] at hsplit2
+        omega
+      · have : (L.drop skip).getD (cts - skip - 1) 0 = L.getD (cts - 1) 0 := by
+          rw [List.getD_eq_getElem?_getD, List.getD_eq_getElem?_getD, List.getElem?_drop]
+          congr 2; omega
+        rw [this]; exact hnz
+    · right
+      exact ⟨by rw [hdroplen, hc18], by omega⟩
+  rw [readClLens_spec cl h5 (L.drop skip) (cts - skip) 32 (List.replicate 18 0) rest
+    (by rw [hdroplen]; omega) hlt hmodes]
+  congr 2
+  apply List.ext_getElem?
+  intro p
+  by_cases hp : p < 18
+  · have hgd := fill_getD cl ((L.drop skip).take (cts - skip)) (List.replicate 18 0) p
+      (by intro o ho; simp; exact hLlt o (List.mem_of_mem_drop (List.mem_of_mem_take ho)))
+    have hfl : (fill cl (List.replicate 18 0) ((L.drop skip).take (cts - skip))).length = 18 := by
+      rw [fill_length]; simp
+    rw [List.getD_eq_getElem?_getD, List.getElem?_eq_getElem (by omega)] at hgd
+    rw [List.getElem?_eq_getElem (by omega), List.getElem?_eq_getElem (by omega)]
+    simp only [Option.getD_some] at hgd
+    rw [hgd]
+    have hclp : cl.getD p 0 = cl[p] := by
+      rw [List.getD_eq_getElem?_getD, List.getElem?_eq_getElem (by omega)]; rfl
+    by_cases hin : p ∈ (L.drop skip).take (cts - skip)
+    · rw [if_pos hin, hclp]
+    · rw [if_neg hin, replicate_getD]
+      have hz : cl.getD p 0 = 0 := by
+        rcases mem_take_or_drop L skip p (hLall p hp) with h | h
+        · exact hzfront p h
+        · rcases mem_take_or_drop (L.drop skip) (cts - skip) p h with h | h
+          · exact absurd h hin
+          · rw [List.drop_drop] at h
+            by_cases hle : skip ≤ cts
+            · have e : skip + (cts - skip) = cts := by omega
+              rw [e] at h
+              exact hzback p h
+            · have e : skip + (cts - skip) = skip := by omega
+              rw [e] at h
+              apply hzback p
+              have : L.drop skip = (L.drop cts).drop (skip - cts) := by
+                rw [List.drop_drop]; congr 1; omega
+              rw [this] at h
+              exact List.mem_of_mem_drop h
+      rw [← hclp, hz]
+  · rw [List.getElem?_eq_none (by rw [fill_length]; simp; omega),
+      List.getElem?_eq_none (by omega)]
+
 /-- `BrotliStoreHuffmanTreeOfHuffmanTreeToBitMask` and the RFC 7932 §3.5 reader of the
 code length code lengths: for a complete code (`num_codes > 1`, Kraft sum 32/32) and
 for the single-symbol case (`num_codes ≤ 1`, all 18 lengths stored, space not used up) -/
@@ -368,15 +449,16 @@ theorem header_roundtrip (cl : List Nat) (hl : cl.length = 18) (h5 : ∀ x ∈ c
         = some (cl, rest) := by
   have htot := gsum_order_eq_kraft cl hl h5
   -- codes_to_store
-  obtain ⟨cts, hcts, hcts18, hctsz, hctsnz⟩ : ∃ cts,
+  obtain ⟨cts, hcts, hcts18, hctsz, hctsnz, hctsB⟩ : ∃ cts,
       (if numCodes > 1 then codesToStoreLoop cl 18 else .ok 18) = .ok cts ∧ cts ≤ 18 ∧
       (∀ j, cts ≤ j → j < 18 → cl.getD (kStorageOrder.getD j 0) 0 = 0) ∧
-      (1 < numCodes → 0 < cts → cl.getD (kStorageOrder.getD (cts - 1) 0) 0 ≠ 0) := by
+      (1 < numCodes → 0 < cts → cl.getD (kStorageOrder.getD (cts - 1) 0) 0 ≠ 0) ∧
+      (¬ numCodes > 1 → cts = 18) := by
     by_cases hn : numCodes > 1
     · obtain ⟨r, h1, h2, h3, h4⟩ := codesToStoreLoop_spec cl hl 18 (Nat.le_refl _)
-      exact ⟨r, by rw [if_pos hn]; exact h1, h2, h3, fun _ => h4⟩
+      exact ⟨r, by rw [if_pos hn]; exact h1, h2, h3, fun _ => h4, fun h => absurd hn h⟩
     · exact ⟨18, by rw [if_neg hn], Nat.le_refl _, fun j h1 h2 => by omega,
-        fun h => absurd h hn⟩
+        fun h => absurd h hn, fun _ => rfl⟩
   -- skip_some
   obtain ⟨skip, hskipdef, hskip3, hskip1, hskipz⟩ : ∃ skip,
       (if cl.getD 1 0 = 0 ∧ cl.getD 2 0 = 0 then (if cl.getD 3 0 = 0 then 3 else 2) else 0) = skip ∧
@@ -413,131 +495,54 @@ theorem header_roundtrip (cl : List Nat) (hl : cl.length = 18) (h5 : ∀ x ∈ c
     have e0 : kStorageOrder.getD 0 0 = 1 := by decide
     have e1 : kStorageOrder.getD 1 0 = 2 := by decide
     have e2 : kStorageOrder.getD 2 0 = 3 := by decide
+    have hg1 := getAt_getD cl 1 (by omega)
+    have hg2 := getAt_getD cl 2 (by omega)
+    have hg3 := getAt_getD cl 3 (by omega)
     simp only [Out.bind_ok, getAt_order 0 (by omega), getAt_order 1 (by omega),
-      getAt_order 2 (by omega), e0, e1, e2, getAt_getD cl 1 (by omega)]
-    have hd1 : (if cl.getD 1 0 = 0 then getAt cl 2 else Out.ok 1)
-        = .ok (if cl.getD 1 0 = 0 then cl.getD 2 0 else 1) := by
-      split
-      · exact getAt_getD cl 2 (by omega)
-      · rfl
-    rw [hd1]
-    simp only [Out.bind_ok]
-    have hd2 : (if cl.getD 1 0 = 0 ∧ (if cl.getD 1 0 = 0 then cl.getD 2 0 else 1) = 0
-          then getAt cl 3 else Out.ok 1)
-        = .ok (if cl.getD 1 0 = 0 ∧ cl.getD 2 0 = 0 then cl.getD 3 0 else 1) := by
-      by_cases ha : cl.getD 1 0 = 0
-      · by_cases hb : cl.getD 2 0 = 0
-        · simp only [ha, hb, ↓reduceIte, and_self]; exact getAt_getD cl 3 (by omega)
-        · simp [ha, hb]
-      · simp [ha]
-    rw [hd2]
-    simp only [Out.bind_ok]
-    have hsk : (if cl.getD 1 0 = 0 ∧ (if cl.getD 1 0 = 0 then cl.getD 2 0 else 1) = 0 then
-          if (if cl.getD 1 0 = 0 ∧ cl.getD 2 0 = 0 then cl.getD 3 0 else 1) = 0 then 3 else 2
-        else 0) = skip := by
-      rw [← hskipdef]
-      by_cases ha : cl.getD 1 0 = 0
-      · by_cases hb : cl.getD 2 0 = 0
-        · simp [ha, hb]
-        · simp [ha, hb]
-      · simp [ha]
-    rw [hsk, writeBits_ok 2 skip w (by omega) (by omega)]
-    simp only [Out.bind_ok]
-    by_cases hle : skip ≤ cts
-    · rw [storeClLoop_spec cl hl h5 (cts - skip) skip _ (by omega), List.append_assoc]
-    · have : cts - skip = 0 := by omega
-      rw [this]
-      simp [storeClLoop, bitsFor]
+      getAt_order 2 (by omega), e0, e1, e2, hg1]
+    -- the tail once `skip_some` is known
+    have htail : (do
+          let w ← writeBits 2 skip w
+          storeClLoop cl (cts - skip) skip w)
+        = .ok (w ++ (bitsOf 2 skip ++ bitsFor cl ((kStorageOrder.drop skip).take (cts - skip)))) := by
+      rw [writeBits_ok 2 skip w (by omega) (by omega)]
+      simp only [Out.bind_ok]
+      by_cases hle : skip ≤ cts
+      · rw [storeClLoop_spec cl hl h5 (cts - skip) skip _ (by omega), List.append_assoc]
+      · have : cts - skip = 0 := by omega
+        rw [this]
+        simp [storeClLoop, bitsFor]
+    generalize cl.getD 1 0 = a0 at hskipdef ⊢
+    generalize cl.getD 2 0 = a1 at hskipdef hg2 ⊢
+    generalize cl.getD 3 0 = a2 at hskipdef hg3 ⊢
+    by_cases h0 : a0 = 0
+    · by_cases h1 : a1 = 0
+      · simp only [h0, h1, and_self, ↓reduceIte, hg2, hg3, Out.bind_ok] at hskipdef ⊢
+        rw [hskipdef]; exact htail
+      · simp only [h0, h1, and_false, ↓reduceIte, hg2, Out.bind_ok] at hskipdef ⊢
+        rw [hskipdef]; exact htail
+    · simp only [h0, false_and, ↓reduceIte, Out.bind_ok] at hskipdef ⊢
+      rw [hskipdef]; exact htail
   · -- the reader
     have hzfront := mem_take_order cl skip (by omega) hskipz
     have hzback := mem_drop_order cl cts hctsz
-    have hsplit1 := gsum_split cl kStorageOrder skip
-    have hlt : ∀ o ∈ kStorageOrder.drop skip, o < cl.length := by
-      intro o ho; rw [hl]; exact order_lt o (List.mem_of_mem_drop ho)
-    -- the part of the storage order that is written
-    have hkey : 32 - 0 = 32 := rfl
-    have hdroplen : (kStorageOrder.drop skip).length = 18 - skip := by
-      rw [List.length_drop, order_length]
-    have hmodes : (1 ≤ cts - skip ∧ gsum cl ((kStorageOrder.drop skip).take (cts - skip)) = 32 ∧
-          cl.getD ((kStorageOrder.drop skip).getD (cts - skip - 1) 0) 0 ≠ 0) ∨
-        (cts - skip = (kStorageOrder.drop skip).length ∧ gsum cl (kStorageOrder.drop skip) < 32) := by
-      rcases hmode with ⟨hn, hk⟩ | ⟨hn, hk⟩
-      · left
-        -- some length is non-zero, so `cts > 0`, and it sits behind the skipped positions
-        have hcts0 : 0 < cts := by
-          by_cases h : cts = 0
-          · exfalso
-            have hz : gsum cl kStorageOrder = 0 := by
-              apply gsum_zero
-              have := mem_drop_order cl 0 (fun j _ hj => hctsz j (by omega) hj)
-              simpa using this
-            omega
-          · omega
-        have hnz := hctsnz hn hcts0
-        have hge : skip ≤ cts - 1 := by
-          by_cases h : cts - 1 < skip
-          · exact absurd (hskipz (cts - 1) h) hnz
-          · omega
-        have hk1 : 1 ≤ cts - skip := by omega
-        refine ⟨hk1, ?_, ?_⟩
-        · have hsplit2 := gsum_split cl (kStorageOrder.drop skip) (cts - skip)
-          have hdd : (kStorageOrder.drop skip).drop (cts - skip) = kStorageOrder.drop cts := by
-            rw [List.drop_drop]; congr 1; omega
-          rw [hdd, gsum_zero cl _ hzback] at hsplit2
-          rw [gsum_zero cl _ hzfront] at hsplit1
-          omega
-        · have : (kStorageOrder.drop skip).getD (cts - skip - 1) 0
-              = kStorageOrder.getD (cts - 1) 0 := by
-            rw [List.getD_eq_getElem?_getD, List.getD_eq_getElem?_getD, List.getElem?_drop]
-            congr 2; omega
-          rw [this]; exact hnz
-      · right
-        have hc18 : cts = 18 := by
-          have : ¬ numCodes > 1 := by omega
-          rw [if_neg this] at hcts
-          injection hcts with h; exact h.symm
-        refine ⟨by rw [hdroplen, hc18], ?_⟩
-        rw [gsum_zero cl _ hzfront] at hsplit1
-        omega
-    rw [readClLens_spec cl h5 (kStorageOrder.drop skip) (cts - skip) 32 (List.replicate 18 0) rest
-      (by rw [hdroplen]; omega) hlt hmodes]
-    congr 2
-    -- the filled-in lengths are `cl`
-    apply List.ext_getElem?
-    intro p
-    by_cases hp : p < 18
-    · have hfl : (fill cl (List.replicate 18 0) ((kStorageOrder.drop skip).take (cts - skip))).length
-          = 18 := by rw [fill_length]; simp
-      have hgd := fill_getD cl ((kStorageOrder.drop skip).take (cts - skip)) (List.replicate 18 0) p
-        (by intro o ho; simp; exact order_lt o (List.mem_of_mem_drop (List.mem_of_mem_take ho)))
-      rw [List.getD_eq_getElem?_getD, List.getElem?_eq_getElem (by omega)] at hgd
-      rw [List.getElem?_eq_getElem (by omega), List.getElem?_eq_getElem (by omega)]
-      simp only [Option.getD_some] at hgd
-      rw [hgd]
-      have hclp : cl.getD p 0 = cl[p] := by
-        rw [List.getD_eq_getElem?_getD, List.getElem?_eq_getElem (by omega)]; rfl
-      by_cases hin : p ∈ (kStorageOrder.drop skip).take (cts - skip)
-      · rw [if_pos hin, hclp]
-      · rw [if_neg hin, replicate_getD]
-        -- `p` is a skipped position or lies behind `codes_to_store`
-        have hpo : p ∈ kStorageOrder := (order_perm.mem_iff).mpr (List.mem_range.mpr hp)
-        have hz : cl.getD p 0 = 0 := by
-          rcases mem_take_or_drop kStorageOrder skip p hpo with h | h
-          · exact hzfront p h
-          · rcases mem_take_or_drop (kStorageOrder.drop skip) (cts - skip) p h with h | h
-            · exact absurd h hin
-            · rw [List.drop_drop] at h
-              by_cases hle : skip ≤ cts
-              · have e : skip + (cts - skip) = cts := by omega
-                rw [e] at h
-                exact hzback p h
-              · have e : skip + (cts - skip) = skip := by omega
-                rw [e] at h
-                have : ∀ o ∈ kStorageOrder.drop skip, cl.getD o 0 = 0 :=
-                  mem_drop_order cl skip (fun j h1 h2 => hctsz j (by omega) h2)
-                exact this p h
-        rw [← hclp, hz]
-    · rw [List.getElem?_eq_none (by rw [fill_length]; simp; omega),
-        List.getElem?_eq_none (by omega)]
+    apply reader_part cl kStorageOrder hl h5 order_length order_lt
+      (fun p hp => (order_perm.mem_iff).mpr (List.mem_range.mpr hp)) skip cts hskip3 hcts18
+      hzfront hzback
+    rcases hmode with ⟨hn, hk⟩ | ⟨hn, hk⟩
+    · left
+      have hcts0 : 0 < cts := by
+        by_cases h : cts = 0
+        · exfalso
+          have hz : gsum cl kStorageOrder = 0 := by
+            apply gsum_zero
+            have := mem_drop_order cl 0 (fun j _ hj => hctsz j (by rw [h]; exact Nat.zero_le _) hj)
+            simpa using this
+          rw [htot, hk] at hz
+          exact absurd hz (by decide)
+        · exact Nat.pos_of_ne_zero h
+      exact ⟨by rw [htot]; exact hk, hcts0, hctsnz hn hcts0⟩
+    · right
+      exact ⟨hctsB (Nat.not_lt.mpr hn), by rw [htot]; exact hk⟩
 
 end BV.Lemmas.HuffmanHeader
